@@ -400,3 +400,37 @@ func RunReplayJSON(cfg Config, path string, out string, w0 interface{ Write([]by
 	w0.Write([]byte("\n"))
 	return 0
 }
+
+// RunInit prints the abstract initial state and the model parameters of cfg as one JSON line; the
+// exhaustive TLC run of the closed-loop model (MC_Rollouts.tla) starts from exactly this state.
+func RunInit(cfg Config, out interface{ Write([]byte) (int, error) }) int {
+	w, err := NewWorld(cfg)
+	if err != nil {
+		fmt.Fprintln(out, "ERR", err)
+		return 2
+	}
+	e := &Explorer{Cfg: cfg}
+	e.w = w
+	st := e.keyState(w)
+	delete(st, "used")
+	acts := cfg.Actions
+	if acts == nil {
+		acts = []string{}
+	}
+	bud := map[string]int{}
+	for _, a := range []string{"user.release2", "user.release3", "user.rollback", "user.scale", "user.approve", "user.pause", "user.resume",
+		"user.disable", "user.enable", "user.delete", "user.editplan", "user.jump", "env.unready", "total"} {
+		if v, ok := cfg.Budget[a]; ok {
+			bud[a] = v
+		} else if a == "total" {
+			bud[a] = 99
+		} else {
+			bud[a] = 1
+		}
+	}
+	plan2 := projectPlan(BuildSteps(cfg.Steps2))
+	b, _ := json.Marshal(map[string]interface{}{"s": st, "actions": acts, "budget": bud, "scaleTo": cfg.ScaleTo, "plan2": plan2})
+	out.Write(b)
+	out.Write([]byte("\n"))
+	return 0
+}
